@@ -112,7 +112,7 @@ Print Assumptions C02_order_generic.
 (* ---- the library hypotheses in their universal form imply the pointwise premises ---- *)
 Theorem C02_json_universal_pointwise : forall (loads : str -> Res pv) m,
   (forall v s, jsonable v = true -> json_dumps v = Ok s -> loads s = Ok v) ->
-  msg_wf m = true -> floats_ok (msg_payload m) = true -> msg_small m -> msg_json_ok loads m.
+  msg_wf m = true -> lex_ok (msg_payload m) = true -> msg_small m -> msg_json_ok loads m.
 Proof. exact json_universal_pointwise. Qed.
 Print Assumptions C02_json_universal_pointwise.
 
